@@ -484,7 +484,9 @@ def oracle(op, o, a, A, res, npc):
     elif op in ('eigh', 'eig', 'eigvalsh', 'eigvals'):
         W = np.asarray(res['W'])
         herm = op in ('eigh', 'eigvalsh')
-        wtol = 100 * tol if herm else 1.0e-5 * scale
+        # eigenvalues of a defective (Jordan) block of size k move by ~eps^(1/k)*|A| (6e-6 for k = 3), independently in
+        # the block-wise and in the dense computation
+        wtol = 100 * tol if herm else 1.0e-4 * scale
         if W.shape != (M,) or not np.all(np.isfinite(W)):
             bad('W.shape-or-nan', W.shape)
         else:
